@@ -329,6 +329,43 @@ func VerifTrav_RelistedInFlight() {
 	verifReach("end")
 }
 
+// An honest network whose nodes answer with the true K closest nodes of the network, sorted by
+// distance and including themselves (so a reply routinely names nodes that were already queried, or
+// are being queried, ahead of ones not yet known): one or two seeds, Alpha 1..2, every completion
+// order. The result is exactly the K closest nodes.
+func VerifTrav_HonestSorted() {
+	const count, k = 4, 3
+	n := verifNewNet(verifTarget, count)
+	for i := range n.nodes {
+		n.nodes[i].neighbours = []int{0, 1, 2} // the true K closest, itself included where it is one
+	}
+	seeds := [][]int{{0}, {3}, {0, 2}, {3, 1}}[verifChoice(0, 3)]
+	n.run(verifChoice(1, 2), k, seeds, true)
+	verifReach("end")
+}
+
+// Two nodes that share one node ID (a multi-homed node, a NAT rebinding, or an impersonator) at
+// different addresses, both named in one reply: both are learned, both are queried (C03: nothing
+// learned is left unqueried at stall while the result set has room), each once.
+func VerifTrav_SharedID() {
+	const count, k = 3, 3
+	n := verifNewNet(verifTarget, count)
+	n.nodes[2].id = n.nodes[1].id
+	n.nodes[0].neighbours = []int{1, 2}
+	if verifNondetBool() {
+		n.nodes[0].neighbours = []int{2, 1}
+	}
+	seeds := []int{0}
+	if verifNondetBool() {
+		seeds = []int{1, 0} // one of the two is known from the start
+	}
+	n.run(verifChoice(1, 2), k, seeds, false)
+	for i := range n.nodes {
+		verifAssert(n.asked[i] == 1, "C03: every learned contact is queried, also when two of them share a node ID")
+	}
+	verifReach("end")
+}
+
 func VerifTrav_MustFail() {
 	n := verifNewNet(verifTarget, 2)
 	n.nodes[0].neighbours = []int{1}
